@@ -96,6 +96,17 @@ pub fn dir_check(out: &mut CaseOut, sess: &mut Session, when: &str, ctx: &serde_
         out.add("dir_checks_skipped", 1);
         return;
     }
+    dir_check_now(out, sess, when, ctx, prop)
+}
+
+/// The same judgement without the extra cycle: for moments at which nothing can be waiting for
+/// "the next collection" - a database that has just been opened (its open ends with a collection,
+/// and no iterator or snapshot has existed yet) and has gone quiet.
+pub fn dir_check_now(out: &mut CaseOut, sess: &mut Session, when: &str, ctx: &serde_json::Value, prop: &str) {
+    if !sess.wait_quiescent(Duration::from_secs(30)) {
+        out.add("dir_checks_skipped", 1);
+        return;
+    }
     let probe = sess.db().verif_probe();
     if probe.bad_state.is_some() {
         out.inconclusive("degenerate: database is in its sticky error state");
@@ -375,6 +386,8 @@ fn case_orphans(out: &mut CaseOut, seed: u64, idx: u64) {
         return;
     }
     let universe: BTreeSet<Vec<u8>> = pool.iter().cloned().collect();
+    // before any iterator exists: nothing may be waiting for a later collection
+    dir_check_now(out, &mut sess2, "right-after-reopen-with-leftovers", &ctx, "C11");
     verify_view(out, &sess2, None, &sess2.model.clone(), &universe, "after-reopen-with-leftovers", &ctx, "C11");
     dir_check(out, &mut sess2, "after-reopen-with-leftovers", &ctx, "C11");
     judge_anomalies(out, &fs2, &ctx, "C11");
@@ -732,6 +745,16 @@ fn case_crash_images(out: &mut CaseOut, tier: &str, seed: u64, idx: u64) {
             // a failing recovery is C02's verdict, not this property's
             out.add("crash_images_not_recoverable", 1);
             continue;
+        }
+        // before any iterator exists: nothing may be waiting for a later collection
+        {
+            let ctx = json!({"execution": exec.description, "crash_after_mutating_call": k, "of": n, "last_call": exec.journal[k - 1].op.describe(),
+                "phase": exec.phase_of(k - 1), "files_in_image": image.listing()});
+            dir_check_now(out, &mut sess, "right-after-crash-recovery", &ctx, "C11");
+            if out.is_violated() {
+                sess.close();
+                break;
+            }
         }
         let got: crate::session::Map = match sess.scan(None) {
             Ok(entries) => entries.into_iter().collect(),
